@@ -65,8 +65,12 @@ def run(ctx):
   typed = {}
   for p, rv in paths:
     for e in _group_loops(p):
-      if isinstance(e[1].target, ast.Name):
-        typed[e[2].env[e[1].target.id].name] = dict(integer=True, positive=True)
+      tgt = e[1].target
+      if isinstance(tgt, (ast.Tuple, ast.List)) and tgt.elts and isinstance(tgt.elts[0], ast.Name) and isinstance(e[1].iter, ast.Call) and \
+          isinstance(e[1].iter.func, ast.Attribute) and e[1].iter.func.attr == 'items':
+        tgt = tgt.elts[0]           # `for d, group in groups.items()`: the key is the dimension
+      if isinstance(tgt, ast.Name) and isinstance(e[2].env.get(tgt.id), sp.Symbol):
+        typed[e[2].env[tgt.id].name] = dict(integer=True, positive=True)
   ip = Interp(fi.node, params={'sketchy_rank': rank_param}, typed=typed)
   paths = ip.run()
   n_groups = 0
@@ -77,6 +81,7 @@ def run(ctx):
     n_groups += 1
     group_iteration(ctx, fi, ip, gl[0])
   ctx.need('C17.R2', n_groups, 1, 'per-group loop')
+  one_list_per_parameter(ctx, fi)
   groups(ctx)
 
 
@@ -162,6 +167,77 @@ def group_iteration(ctx, fi, ip, gev):
     asserts_hold(ctx, fi, evs, pdata, oid, B, S)
     for T in after:
       topup(ctx, fi, ip, T, oid, d, B, S)
+
+
+SHARED_FIXTURE = '''
+def bad_fromkeys(names, n):
+  return dict.fromkeys(names, [0] * n)
+def bad_replicated(names, n):
+  rows = [[0] * n] * len(names)
+  return dict(zip(names, rows))
+def bad_hoisted(names, n):
+  row = [0] * n
+  out = {}
+  for name in names:
+    out[name] = row
+  return out
+def fine(names, n):
+  out = {}
+  for name in names:
+    out[name] = [0] * n
+  flags = dict.fromkeys(names, 0)
+  return out, flags
+'''
+
+
+def _is_mutable_display(e):
+  if isinstance(e, (ast.List, ast.ListComp, ast.Dict, ast.DictComp, ast.Set, ast.SetComp)):
+    return True
+  if isinstance(e, ast.BinOp) and isinstance(e.op, ast.Mult):
+    return _is_mutable_display(e.left) or _is_mutable_display(e.right)
+  if isinstance(e, ast.Call) and isinstance(e.func, ast.Name) and e.func.id in ('list', 'dict', 'set'):
+    return True
+  return False
+
+
+def shared_containers(fn):
+  """places in `fn` (nested functions included) where ONE mutable container ends up under several keys / positions:
+  dict.fromkeys(keys, <list>), [<list>] * n, and a list built outside a loop stored under the loop's keys"""
+  out = []
+  for n in ast.walk(fn):
+    if isinstance(n, ast.Call) and isinstance(n.func, ast.Attribute) and n.func.attr == 'fromkeys' and len(n.args) == 2 and _is_mutable_display(n.args[1]):
+      out.append((n, f'`{ast.unparse(n)}`: every key gets the SAME {type(n.args[1]).__name__.lower()} object'))
+    if isinstance(n, ast.BinOp) and isinstance(n.op, ast.Mult):
+      for side in (n.left, n.right):
+        if isinstance(side, ast.List) and any(_is_mutable_display(e) for e in side.elts):
+          out.append((n, f'`{ast.unparse(n)}`: the replicated entries are one and the same object'))
+    if isinstance(n, (ast.For, ast.While)):
+      assigned_in = {t.id for x in ast.walk(n) for t in ast.walk(x) if isinstance(t, ast.Name) and isinstance(t.ctx, ast.Store)}
+      for st in ast.walk(n):
+        if isinstance(st, ast.Assign) and isinstance(st.value, ast.Name) and st.value.id not in assigned_in and \
+            any(isinstance(t, ast.Subscript) for t in st.targets):
+          # is the name bound to a mutable display somewhere in fn (outside this loop)?
+          for b in ast.walk(fn):
+            if isinstance(b, ast.Assign) and any(isinstance(t, ast.Name) and t.id == st.value.id for t in b.targets) and _is_mutable_display(b.value):
+              out.append((st, f'`{ast.unparse(st)}` stores the one container `{st.value.id}` (built outside the loop) under every key'))
+              break
+  return out
+
+
+def one_list_per_parameter(ctx, fi):
+  """R6: the result tree holds one FRESH list of ranks per parameter: the write-out assigns `tree[...][axis] = rank` item by
+  item, so two parameters sharing one list object overwrite each other's ranks (the budget and rank <= dim facts hold
+  for the dict of ranks, not for what is returned)."""
+  fx = ast.parse(SHARED_FIXTURE)
+  hits = {f.name: len(shared_containers(f)) for f in fx.body if isinstance(f, ast.FunctionDef)}
+  if hits != {'bad_fromkeys': 1, 'bad_replicated': 1, 'bad_hoisted': 1, 'fine': 0}:
+    raise AnalysisError(f'C17.R6 positive fixture not matched ({hits})')
+  sites = shared_containers(fi.node)
+  for node, why in sites:
+    ctx.ob('C17.R6', fi.short, f'shared container: {" ".join(ast.unparse(node).split())[:80]}', False,
+           f'{why}; the ranks written for one parameter overwrite those of the others', ctx.loc(fi, node))
+  if not sites:
+    ctx.ob('C17.R6', fi.short, 'one fresh rank list per parameter', True, '', ctx.loc(fi), sample='cur[name] = [0] * num_axes inside the loop')
 
 
 def _integer_valued(e):
